@@ -1,4 +1,4 @@
 From Coq Require Extraction.
 From Coq Require Import ExtrOcamlBasic.
 From Verif.C14 Require Import Gen_Tags Model.
-Extraction "c14_ext.ml" describe_c describe_params_c describe_input_c parse dict_of uuid5.
+Extraction "c14_ext.ml" describe_c describe_params_c describe_input_c make_state_c parse dict_of uuid5.
